@@ -2,6 +2,9 @@ module verif
 
 go 1.23
 
-require gitee.com/xuesongtao/protoc-go-valid v0.0.0
+require (
+	gitee.com/xuesongtao/protoc-go-valid v0.0.0
+	github.com/anishathalye/porcupine v1.3.0
+)
 
 replace gitee.com/xuesongtao/protoc-go-valid => /repo
